@@ -662,6 +662,11 @@ func (v *Verifier) VerifyFunction(fn *ssa.Function, fc *FuncContract) (err error
 	}()
 	v.top = fn
 	v.topC = fc
+	arithMath = fc.ArithMath
+	defer func() { arithMath = false }()
+	if fc.ArithMath {
+		v.assumptions["machine arithmetic treated as mathematical (no overflow) in "+funcRef(fn)+" (contract clause `arith math`)"] = true
+	}
 	st := &State{cells: map[*Cell]*Value{}, heap: map[string]*Term{}, ghost: map[string]*Value{}}
 	st.wm = Const("wm0", SInt)
 	st.assume(Ge(st.wm, Int(0)))
